@@ -42,6 +42,10 @@ CHECKS = {
    text="CJson.tla defines, over 11 character classes, the reference signed-bytes string encoding Olpc, the general-purpose JSON escaping and the textual replacement the code used to apply; TLC proves Olpc injective, characterises exactly the strings on which the old path differs (non-vacuity witness set), and emits one scenario per (class string, string-bearing field) with the reference atoms. The harness instantiates every class (several members; every Unicode scalar value in the thorough tier), checks its independent OLPC renderer against the TLC atoms, and requires through the public API only that an ed25519 signature made directly over the reference bytes verifies and that the library's own signature is byte-identical; key ids of all fixture keys are compared with sha256 of the reference rendering of the key description.",
    note="Trusted: TLC, ring ed25519 (deterministic), serde_json's Value form of the metadata as the member set. Class-based: each class is instantiated by seeded members (quick) or all members (thorough); strings <= 2 in every field and <= 3 in captured output (quick), <= 3 / <= 4 (thorough).",
    tech="TLA+ spec CJson.tla (encoders over character classes) checked with TLC; every TLC scenario concretised and decided through Metablock::verify / Metablock::new with an independent reference renderer bound to the spec atoms"),
+ "C10": dict(cat="model_checking", ref="§4 C10, §3.4",
+   text="CJsonValues.tla defines abstract JSON values over character / number classes, C10's verdict rule (integers exact, non-integers rejected) and a token-stream acceptor (structure, loss-freedom, JSON-valid escape spellings, no whitespace). TLC enumerates value shapes, checks an order-free canonical writer against the acceptor and emits each value. The harness instantiates classes, writes each value in four textual spellings, runs Json::canonicalize, tokenises the output independently and TLC validates one trace event per value against Trace_CJson.tla (verdict allowed, spelling-independent, members sorted by code point, parse-back identical, integers exact, token stream renders the value). Every Unicode scalar value is exercised as member name and content (strided in quick, all in thorough).",
+   note="Trusted: TLC, serde_json as JSON parser, the harness tokeniser. Class-based for characters and numbers (boundary integers exact); nesting <= 2, <= 2 members.",
+   tech="TLA+ spec CJsonValues.tla (acceptor) + TLC enumeration; impl->spec trace validation of tokenised canonical output (Trace_CJson.tla)"),
  "C03": dict(cat="model_checking", ref="§4 C03, §3.3",
    text="Rules.tla transcribes the in-toto specification's artifact-rule algorithm (functional form and a state machine with one Apply step per rule; TLC checks that both agree, that the queue only shrinks and that a rule only consumes artifacts its pattern / source prefix matches). TLC enumerates rule lists x item link states x referenced-step states; every scenario is run through the real rule engine and the verdict must equal the specification's; seeded random scenarios beyond the bounds (up to 4+4 rules, 6 paths, nested prefixes) are validated step by step (consumed set and remaining queue after every rule, hook in rulelib.rs) against Trace_Rules.tla.",
    note="Trusted: TLC, glob::Pattern (default options) as fnmatch, the harness builders. Inputs restricted to C03's own quantifier: normalised relative paths, portable glob syntax; '[' only in DISALLOW. Bounds: 3 paths, 57-rule alphabet, rule lists <= 2 in TLC (<= 4+4 in traces).",
